@@ -20,6 +20,27 @@ fn bytes_for(rng: &mut Rng, k: usize) -> Vec<u8> {
         5 | 8 => { let len = len.max(256); (0..len).map(|_| if rng.chance(1, 8) { (rng.next() % 6) as u8 } else { 0 }).collect() }
         6 | 9 => { let len = len.max(256); (0..len).map(|_| if rng.chance(1, 4) { (rng.next() % 16) as u8 } else { 0 }).collect() }
         7 | 10 => { let len = len.max(512); (0..len).map(|_| if rng.chance(1, 16) { rng.next() as u8 } else if rng.chance(1, 3) { 1 } else { 0 }).collect() }
+        // dictionary: a sparse background with the byte encodings of awkward NAMES spliced in (a length byte, then one
+        // index per character into apollo-smith's name alphabets): reserved words followed by underscores, words that
+        // differ from a reserved word in the last character, built-in type names
+        4 => {
+            let len = len.max(384);
+            let mut v: Vec<u8> = (0..len).map(|_| if rng.chance(1, 10) { (rng.next() % 6) as u8 } else { 0 }).collect();
+            const HEAD: &[u8] = b"ABCDEFGHIJKLMNOPQRSTUVWXYZabcdefghijklmnopqrstuvwxyz";
+            const BODY: &[u8] = b"ABCDEFGHIJKLMNOPQRSTUVWXYZabcdefghijklmnopqrstuvwxyz_0123456789";
+            const WORDS: &[&str] = &["on_", "Int_", "Float__", "String_", "Boolean_", "ID_", "on", "Int", "Inu", "query_", "true_", "null_", "fragment_", "type_", "Query_", "__a", "a__"];
+            let mut i = rng.range(0, 12);
+            while i + 12 < v.len() {
+                let w = WORDS[rng.below(WORDS.len())].as_bytes();
+                v[i] = (w.len() - 1) as u8;
+                for (j, c) in w.iter().enumerate() {
+                    let set = if j == 0 { HEAD } else { BODY };
+                    v[i + 1 + j] = set.iter().position(|x| x == c).unwrap_or(0) as u8;
+                }
+                i += w.len() + 1 + rng.range(0, 24);
+            }
+            v
+        }
         0 => (0..len).map(|_| rng.next() as u8).collect(),
         1 => (0..len).map(|_| (rng.next() % 4) as u8).collect(),                     // low entropy
         2 => { let pat: Vec<u8> = (0..rng.range(1, 7)).map(|_| rng.next() as u8).collect(); (0..len).map(|i| pat[i % pat.len()]).collect() }
